@@ -60,6 +60,9 @@ def quat_to_matrix(q):
          [2 * (x * z - y * w), 2 * (y * z + x * w), w * w - x * x - y * y + z * z]]
     if not is_sym(n2) and n2 == 1:
         return m
+    if not is_sym(n2) and n2 == 0:
+        # rows of an empty batch (np.zeros((0, 4))): no such row exists; any matrix
+        return [[Sym(z3.Real(V.fresh_name("norow"))) for _ in range(3)] for _ in range(3)]
     return [[V.arith("/", m[i][j], n2) for j in range(3)] for i in range(3)]
 
 
@@ -203,7 +206,8 @@ class RotV:
                         _unit=self.unit)
         if isinstance(k, SArr) and k.dtype != "bool":
             kf = k.snapshot()
-            rm = lambda i: A.norm_index(kf((i,)), self.n)
+            by_code = bool(V.SAFETY[0])
+            rm = lambda i: A.norm_index(kf((i,)), self.n, force=by_code)
             return RotV(_n=k.shape[0], _matf=lambda i: mf(rm(i)), _quatf=(lambda i: qf(rm(i))) if qf else None,
                         _unit=self.unit)
         if V.is_num(k):
